@@ -30,6 +30,7 @@ use core::fmt;
 use core::marker::PhantomData;
 
 use crate::error::Error;
+use crate::tlv::TLVSequence;
 use crate::utils::init;
 
 use super::{EitherIter, FromTLV, TLVElement, TLVSequenceIter, TLVTag, TLVWrite, ToTLV, TLV};
@@ -91,7 +92,15 @@ where
 
     /// Returns an iterator over the elements of the container.
     pub fn iter(&self) -> TLVContainerIter<'a, T> {
-        TLVContainerIter::new(unwrap!(self.element.container()).iter())
+        // The constructors accept an empty element: it stands for a container that is not there
+        // (e.g. what `TLVSequence::find_ctx` returns for an absent field) and has no elements
+        let seq = if self.element.is_empty() {
+            TLVSequence(&[])
+        } else {
+            unwrap!(self.element.container())
+        };
+
+        TLVContainerIter::new(seq.iter())
     }
 }
 
